@@ -13,28 +13,32 @@ fn be32(v: &[u8], o: usize) -> usize {
 /// C17: parsing the raw encoding of a well-formed register / authenticate / version request returns
 /// that request (layout written from the U2F raw message format, not from the code).
 pub fn wellformed_parses(v: &[u8]) -> (bool, String) {
-    if v.len() < 7 || v[0] != 0 || be32(v, 3) != v.len() - 7 {
+    // extended length encoding: CLA INS P1 P2 | 00 LC1 LC2 data [LE1 LE2], or without request data CLA INS P1 P2 | 00 LE1 LE2
+    if v.len() < 7 || v[0] != 0 || v[3] != 0 || v[4] != 0 {
         return (false, "frame not well-formed: nothing to check".into());
     }
+    let nc = (v[5] as usize) << 8 | v[6] as usize;
+    let sized = |n: usize| nc == n && (v.len() == 7 + n || v.len() == 7 + n + 2);
     let r = Request::try_from(v);
     match v[1] {
-        1 if v.len() == 71 => match r {
+        1 if sized(64) => match r {
             Ok(Request { cla: 0, ins: Command::Register, data_len: 64, data: RequestPayload::Register(rr), .. })
                 if rr.challenge[..] == v[7..39] && rr.application[..] == v[39..71] => (false, "register ok".into()),
             Ok(_) => (true, "register frame parsed to different fields".into()),
             Err(e) => (true, format!("well-formed register frame rejected: {e:?}")),
         },
-        2 if v.len() >= 72 && matches!(v[2], 3 | 7 | 8) && v.len() - 7 == 65 + v[71] as usize => match r {
+        2 if v.len() >= 72 && matches!(v[2], 3 | 7 | 8) && sized(65 + v[71] as usize) => match r {
             Ok(Request { ins: Command::Authenticate, p1, data: RequestPayload::Authenticate(a), .. })
-                if p1 == v[2] && a.challenge[..] == v[7..39] && a.application[..] == v[39..71] && a.key_handle[..] == v[72..] =>
+                if p1 == v[2] && a.challenge[..] == v[7..39] && a.application[..] == v[39..71] && a.key_handle[..] == v[72..72 + v[71] as usize] =>
                 (false, "authenticate ok".into()),
             Ok(_) => (true, "authenticate frame parsed to different fields".into()),
             Err(e) => (true, format!("well-formed authenticate frame rejected: {e:?}")),
         },
+        // no request data: LC is omitted, the three bytes are 00 LE1 LE2 with any Le
         3 if v.len() == 7 => match r {
             Ok(Request { ins: Command::Version, data: RequestPayload::Version, data_len: 0, .. }) => (false, "version ok".into()),
             Ok(_) => (true, "version frame parsed to different fields".into()),
-            Err(e) => (true, format!("well-formed version frame rejected: {e:?}")),
+            Err(e) => (true, format!("well-formed version frame (Le = {nc}) rejected: {e:?}")),
         },
         _ => (false, "frame not well-formed: nothing to check".into()),
     }
